@@ -321,6 +321,9 @@ def run(ctx):
                 key = f"C11|member|{member}|{plat}"
             ctx.violation(key, f"{plat} cfg {cfg} log {log}, block {where}: {member} -> {e}",
                           {"mode": "combo", "combo": list(combo), "seed": ctx.seed})
+    for j in jobs[ctx.seed % len(jobs):][:2]:
+        ctx.sample({"combination_case": {"platform": j[0], "cfg": j[1], "log": j[2], "field_sweep": j[4],
+                                         "blocks": [b[0] for b in base_blocks(j[0], ctx.seed)][:8]}})
     n, fails = _aux_checks()
     evals += n
     for where, e in fails:
